@@ -290,6 +290,9 @@ func C09(c *fw.Ctx) {
 				add(p.Name, p.RootContent())
 			}
 		}
+		for name, content := range ruleRejectedDocs() {
+			add(name, content)
+		}
 		r := gen.Rng(c.Seed, c.ID, "models")
 		for i := 0; i < c.Pick(150, 3000); i++ {
 			m := model.Generate(r, model.QuickSize)
@@ -529,7 +532,13 @@ func C09(c *fw.Ctx) {
 		if base.Err.Msg != res.Err.Msg {
 			// D18: an error met while a macro is expanded is re-wrapped and carries the rendered include trace in its message
 			if strings.HasPrefix(res.Err.Msg, base.Err.Msg+"\n") || firstLine(res.Err.Msg) == firstLine(base.Err.Msg) && strings.Contains(res.Err.Msg, ".jst:") {
-				c.Violate("message-embeds-include-trace", fmt.Sprintf("split of %s: %q becomes %q", d.name, trunc(base.Err.Msg, 100), trunc(res.Err.Msg, 160)), rp)
+				// the known finding is about errors that are reported on a PASTE directive; a trace inside the message of an error
+				// that sits anywhere else is something new
+				sig := "message-embeds-include-trace:error-not-on-a-paste"
+				if content, ok := j.Files[relName(res, res.Err.File)]; ok && res.Err.Index >= 0 && res.Err.Index+5 <= len(content) && string(content[res.Err.Index:res.Err.Index+5]) == "PASTE" {
+					sig = "message-embeds-include-trace"
+				}
+				c.Violate(sig, fmt.Sprintf("split of %s: %q becomes %q", d.name, trunc(base.Err.Msg, 100), trunc(res.Err.Msg, 160)), rp)
 				return
 			}
 			c.Violate("message-changed", fmt.Sprintf("split of %s: %q becomes %q", d.name, trunc(base.Err.Msg, 120), trunc(res.Err.Msg, 120)), rp)
